@@ -22,6 +22,9 @@ func tryReplay(eng *Engine, id string, o *Obligation, model map[string]string) (
 	}
 	d, ok := replayDrivers[fn]
 	if !ok {
+		if confirmed, info, applies := scalarReplay(eng, o, model); applies {
+			return confirmed, info
+		}
 		return false, map[string]interface{}{"status": "no replay driver for " + fn}
 	}
 	pkgRel, src, ok := d(o, model)
